@@ -455,3 +455,9 @@ def veq(a, b):
     if isinstance(a, ClassV) and isinstance(b, ClassV):
         return z3.BoolVal(a.name == b.name)
     return None
+
+
+def eqv(a, b):
+    """veq for specification clauses: values of kinds that cannot be equal are unequal"""
+    r = veq(a, b)
+    return smt.F if r is None else r
